@@ -328,12 +328,25 @@ func GenOpFor(ch *core.Chooser, hosts []string, kinds []int, lines []string) Op 
 			}
 		}
 		return o
-	case strings.HasPrefix(l, "||") || strings.HasPrefix(l, "@@||"):
-		h := strings.TrimPrefix(strings.TrimPrefix(l, "@@"), "||")
+	case strings.HasPrefix(l, "||") || strings.HasPrefix(l, "@@||") || strings.HasPrefix(l, "|https://") || strings.HasPrefix(l, "://") || strings.HasPrefix(l, "@@|https://"):
+		h := strings.TrimPrefix(l, "@@")
+		for _, pre := range []string{"||", "|https://", "://"} {
+			h = strings.TrimPrefix(h, pre)
+		}
+		rest := ""
 		if j := strings.IndexAny(h, "^/$*"); j >= 0 {
-			h = h[:j]
+			h, rest = h[:j], h[j:]
 		}
 		if h == "" {
+			return o
+		}
+		// the path the rule's pattern asks for, if it spells one out
+		if j := strings.IndexByte(rest, '$'); j >= 0 {
+			rest = rest[:j]
+		}
+		rest = strings.TrimRight(rest, "^|")
+		if strings.HasPrefix(rest, "/") && !strings.ContainsAny(rest, "*^|") && o.Kind != OpDNS && o.Kind != OpCosmetic && !o.HostnameReq && ch.Intn("q.rulepath", 2) == 1 {
+			o.URL = "https://" + h + rest + []string{"", "?x=1", ".png?track=1"}[ch.Intn("q.rulepathtail", 3)]
 			return o
 		}
 		if ch.Intn("q.sub", 4) == 3 {
@@ -641,4 +654,43 @@ func (r *Result) CanonFull() string {
 		}
 	}
 	return s
+}
+
+// RuleTexts lists the texts of all rules (and cosmetic contents) in r.
+func (r *Result) RuleTexts() (out []string) {
+	nr := func(rs ...*rules.NetworkRule) {
+		for _, x := range rs {
+			if x != nil {
+				out = append(out, x.Text())
+			}
+		}
+	}
+	switch r.Kind {
+	case OpDNS:
+		if r.DNS != nil {
+			nr(r.DNS.NetworkRule)
+			nr(r.DNS.NetworkRules...)
+			for _, h := range append(append([]*rules.HostRule{}, r.DNS.HostRulesV4...), r.DNS.HostRulesV6...) {
+				if h != nil {
+					out = append(out, h.Text())
+				}
+			}
+		}
+	case OpWeb:
+		if r.Web != nil {
+			nr(r.Web.BasicRule, r.Web.DocumentRule, r.Web.StealthRule)
+			nr(r.Web.CspRules...)
+			nr(r.Web.CookieRules...)
+			nr(r.Web.ReplaceRules...)
+		}
+	case OpMatchAll:
+		nr(r.All...)
+	case OpMatch:
+		nr(r.One)
+	case OpCosmetic:
+		for _, l := range [][]string{r.Cos.ElementHiding.Generic, r.Cos.ElementHiding.Specific, r.Cos.ElementHiding.GenericExtCSS, r.Cos.ElementHiding.SpecificExtCSS} {
+			out = append(out, l...)
+		}
+	}
+	return out
 }
